@@ -161,6 +161,12 @@ func C09(job *Job, r *Report) {
 		for i := 0; i+4 <= len(pool); i += 3 {
 			files = append(files, pool[i:i+2], pool[i:i+3], pool[i:i+4])
 		}
+		// every record also as a non-last record followed by a one-block record (what comes after a record must be found
+		// whatever the size of that record: exact multiple of a block, one byte over, ...)
+		small := store.VerifRec{Key: "follower", Body: []byte("f"), Flag: 1, Ver: 2, TS: 3}
+		for i := range pool {
+			files = append(files, []store.VerifRec{pool[i], small, pool[(i+1)%len(pool)]})
+		}
 		unit := 0
 		for fi, recs := range files {
 			mine := unit%job.NShards == job.Shard
